@@ -316,6 +316,7 @@ func c20Scenarios(thorough bool, r *rand.Rand) []*c20Scenario {
 	var out []*c20Scenario
 	add := func(s *c20Scenario) { out = append(out, s) }
 	own := func(c c20Conf) c20Conf { c.UploadDir = "own"; return c }
+	real := func(s *c20Scenario, site, needs string) *c20Scenario { s.RealSite, s.RealNeeds = site, needs; return s }
 
 	// memory-only body
 	add(c20Build("memory/form", "memory", own(c20Conf{}), c20Opts{CT: c20FormCT, Body: c20URLEncoded(60, true), ReadBack: true, ReadRes: true}))
@@ -398,6 +399,26 @@ func c20Scenarios(thorough bool, r *rand.Rand) []*c20Scenario {
 			c20Opts{CT: c20MultipartCT, Body: c20Multipart([]int{120, 30, 300}, true, 0), Chunk: 150}), "var:INBOUND_DATA_ERROR", "intr:"))
 	}
 
+	// the HTTP middleware (owns the transaction; must always run ProcessLogging and Close)
+	http := func(name string, conf c20Conf, ct, body, deny string) *c20Scenario {
+		return &c20Scenario{Name: "http/" + name, Kind: "http", Conf: conf, Calls: []c20Call{{Op: "http", A: ct, B: deny, Data: body}}}
+	}
+	add(http("form/spill", own(c20Conf{MemLimit: 64}), c20FormCT, c20URLEncoded(330, true), ""))
+	add(http("form/memory", own(c20Conf{}), c20FormCT, c20URLEncoded(60, true), ""))
+	add(http("multipart/off", own(c20Conf{MemLimit: 64, Keep: "Off"}), c20MultipartCT, c20Multipart([]int{120, 30}, true, 0), ""))
+	add(http("multipart/on", own(c20Conf{MemLimit: 64, Keep: "On"}), c20MultipartCT, c20Multipart([]int{120, 30}, false, 0), ""))
+	add(http("multipart/audit-serial", own(c20Conf{MemLimit: 64, Keep: "Off", Audit: "serial"}), c20MultipartCT, c20Multipart([]int{120}, true, 0), ""))
+	add(http("form/audit-concurrent", own(c20Conf{MemLimit: 64, Audit: "concurrent"}), c20FormCT, c20URLEncoded(330, true), ""))
+	for ph := 1; ph <= 4; ph++ {
+		add(http(fmt.Sprintf("deny-p%d/multipart", ph), own(c20Conf{MemLimit: 64, Keep: "Off"}), c20MultipartCT, c20Multipart([]int{120, 30}, false, 0), fmt.Sprintf("p%d", ph)))
+	}
+	add(http("json/parse-error", own(c20Conf{MemLimit: 64, Strict: true}), c20JSONCT, `{"a": [1, 2, "`+c20Fill(200, 4), ""))
+	add(http("over-limit/reject", own(c20Conf{MemLimit: 64, ReqLimit: 250, ReqAction: "Reject"}), c20FormCT, c20URLEncoded(420, true), ""))
+	add(http("over-limit/partial", own(c20Conf{MemLimit: 64, ReqLimit: 250, ReqAction: "ProcessPartial"}), c20FormCT, c20URLEncoded(420, true), ""))
+	add(real(http("real/tmpdir-removed", own(c20Conf{MemLimit: 64, Real: "tmpdir-removed"}), c20FormCT, c20URLEncoded(330, true), ""), "bodybuffer.createtemp", "bodybuffer.createtemp"))
+	add(real(http("real/fsize0-multipart", own(c20Conf{Keep: "Off", Real: "fsize:0"}), c20MultipartCT, c20Multipart([]int{120, 30}, true, 0), ""), "multipart.copy", "multipart.copy"))
+	add(real(http("real/devfull-audit-serial", own(c20Conf{Audit: "serial", Real: "audit-devfull"}), c20FormCT, c20URLEncoded(100, true), ""), "auditlog.serial.write", ""))
+
 	// the body buffer used directly (reaches WriteTo)
 	add(&c20Scenario{Name: "bodybuffer/spill", Kind: "bodybuffer", Conf: c20Conf{MemLimit: 64, ReqLimit: 4096}, Calls: []c20Call{
 		{Op: "bbw", Data: c20Fill(50, 1)}, {Op: "bbr"}, {Op: "bbw", Data: c20Fill(50, 2)}, {Op: "bbr"}, {Op: "bbw", Data: c20Fill(50, 3)}, {Op: "bbwt"}, {Op: "bbr"}}})
@@ -407,7 +428,6 @@ func c20Scenarios(thorough bool, r *rand.Rand) []*c20Scenario {
 	// ---- real (non-injected) faults ----
 	spill := c20Opts{CT: c20FormCT, Body: c20URLEncoded(330, true), Chunk: 100}
 	mp2 := c20Opts{CT: c20MultipartCT, Body: c20Multipart([]int{120, 30}, true, 0), Chunk: 150}
-	real := func(s *c20Scenario, site, needs string) *c20Scenario { s.RealSite, s.RealNeeds = site, needs; return s }
 	add(real(c20Build("real/tmpdir-removed/spill", "real-spill", own(c20Conf{MemLimit: 64, Real: "tmpdir-removed"}), spill), "bodybuffer.createtemp", "bodybuffer.createtemp"))
 	add(real(c20Build("real/tmpdir-is-file/spill", "real-spill", own(c20Conf{MemLimit: 64, Real: "tmpdir-is-file"}), c20Opts{CT: c20FormCT, Body: c20URLEncoded(330, true), Chunk: 100, Via: "readfrom"}), "bodybuffer.createtemp", "bodybuffer.createtemp"))
 	add(real(c20Build("real/uploaddir-removed/multipart", "real-multipart", own(c20Conf{Keep: "Off", Real: "uploaddir-removed"}), mp2), "multipart.createtemp", "multipart.createtemp"))
@@ -434,7 +454,7 @@ func c20Scenarios(thorough bool, r *rand.Rand) []*c20Scenario {
 	// ---- seeded variants ----
 	nvar := 12
 	if thorough {
-		nvar = 160
+		nvar = 300
 	}
 	vias := []string{"write", "readfrom", "readfrom-nolen"}
 	for i := 0; i < nvar; i++ {
